@@ -100,6 +100,10 @@ BaseSenderParams ==
     THEN {SP(su, mo, OneInfo, OnePair(mo)) : su \in Suites, mo \in ModeSet}
          \* ... and a SHORT psk / psk_id (below every hash block size: zero-padding style collisions only show there)
          \cup {SP(su, mo, OneInfo, ShortPair) : su \in Suites, mo \in ModeSet \cap PskModes}
+         \* ONE byte string used as info, psk and psk_id at once (whatever is remembered per field value must keep the
+         \* fields apart: each is hashed under its own label)
+         \cup {SP(su, mo, Leaf("samestring", 160), <<Leaf("samestring", 160), Leaf("samestring", 160)>>)
+                : su \in Suites, mo \in ModeSet \cap PskModes}
          \* deviation D2: a PSK mode with an EMPTY bundle is accepted by the library (and is not Base / Auth)
          \cup {SP(su, mo, OneInfo, <<<<>>, <<>>>>) : su \in Suites, mo \in ModeSet \cap PskModes}
     ELSE UNION {{SP(su, mo, inf, pp) : su \in Suites, inf \in InfoVals, pp \in PairsFor(mo)} : mo \in ModeSet}
